@@ -42,6 +42,7 @@ Init ==
     CASE Mode = "single" ->
             \/ \E s \in Seeds, a \in Apps : case = Case(s, Unmutated(s), a, Unlimited)
             \/ \E s \in Seeds : \E m \in Single(s) : case = Case(s, m, "builtin", Unlimited)
+            \/ \E s \in DictSeeds \cup FeedbackSeeds : case = Case(s, Unmutated(s), "builtin", Unlimited)
       [] Mode = "pairs" ->
             \E s \in PairSeeds : \E m \in Pair(s) : case = Case(s, m, "builtin", Unlimited)
       [] Mode = "scripts" ->
